@@ -64,6 +64,9 @@ def run_scenarios(ctx: Ctx, own: str, scenarios: List[dict], want_traces: bool =
 
 
 def run(ctx: Ctx) -> None:
+    # the synchronous API from application threads, two blocking instances, real time (props/syncapi.py, Trace_SyncApi.tla)
+    from props import syncapi
+    syncapi.run(ctx, 'C18')
     rng = random.Random(ctx.seed * 7919 + 18)
     from props import lookupmodel as lm
     scs = [lf.gen_lookup(rng, 'c18-%d' % k, ctx.thorough) for k in range(ctx.pick(1500, 20000))]
